@@ -75,7 +75,7 @@ ADDENDA = {
  "C07": "Caller-assigned uuids include over-long hexadecimal strings and an existing uuid extended by hex digits (prefix ambiguity). Every second sequence restarts the server between requests; branch names include names that differ from master or an existing branch only by surrounding white space.",
  "C08": "Every second sequence restarts the server before the final sweep and sweeps leaves first; some intermediate versions are committed without ever being read or written; every fourth sequence is a scripted remap chain (the same supervoxels re-mapped in three successive versions) ending in a restart. The scripted chain continues with namesake steps (a body loses the supervoxel it is named after, then is renumbered).",
  "C10": "World-split cases cut one sparse volume over several blocks at negative block coordinates with dvid.RLEs.Partition and compare the per-block splits with the voxel-wise split of the world.",
- "C11": "Version races run on master parents, on committed named-branch parents (newversion vs branch <own name>) and with one new branch name on different parents; every second register history runs at a child version whose parent holds the keys; concurrent re-posts of one annotation element with different tag sets must leave every tag view agreeing with the stored tags. One round issues POST blocks together with element edits of the same block.",
+ "C11": "Version races run on master parents, on committed named-branch parents (newversion vs branch <own name>) and with one new branch name on different parents; every second register history runs at a child version whose parent holds the keys; concurrent re-posts of one annotation element with different tag sets must leave every tag view agreeing with the stored tags. One round issues POST blocks together with element edits of the same block. Another issues split-supervoxel, cleave and merge of disjoint bodies at once on four fresh versions in a row (first appends to each mutation log), reads the mutation history, and re-reads every mapping after a restart at the end of the batch.",
  "C15": "A sequence phase serialises values of nearly equal sizes back to back (state carried between calls). A stored layer inspects what keyvalue instances of every Compression x Checksum setting physically store per write route (envelope checksum kind, round trip, altered stored bytes read back over HTTP). The probe keeps earlier deserialisation results and re-compares them after every later call.",
  "C19": "Full copies are also requested at versions that deleted keys written again later; every fourth history copies without repeating the source's settings; every second history restarts the server after the copies and compares every copy again. Every second history gives the image source a non-default background and creates two keyvalue sources back to back.",
  "C01": "Every modelled key is also read through the range path (keyrange over [key,key] and [0,key]) and compared with the model.",
